@@ -27,6 +27,8 @@ SAMPLES = [
     "def \x1b[34mf\x1b[39m():\n    \x1b[32mpass\x1b[39m\n", "\x1b[6n", "\x1b[12;40R", "\x1b7\x1b8", "\x1bM", "\x1bc", "\x1b(B",
     "\x1b[1;5A", "\x1b[A\x1b[B", "\x1bOA", "a\x1bb", "\x1b", "\x1b[", "\x1b[1", "\x1b[1;", "\x9b1m", "\x9b31mred\x9b39m",
     "\x1b[31", "\x1b[31;", "\x1b[;m", "\x1b[1;;2m", "\x1b[ q", "\x1b[5 q", "\x1b[>0c", "\x1b[=1c", "\x1b[!p", "\x1b[31m\x1b[Zx",
+    "\x1b[38;5m", "\x1b[38;2;1;2m", "\x1b[48;5m", "\x1b[1;48;2;10;20m", "\x1b[38m", "\x1b[38;5;m", "\x1b[38;5", "\x1b[48;2m", "\x1b[38;2;255;0;0;1m",
+    "\x1b[38;5;1;38;5m", "a\x1b[38;5mb", "\x1b[0;38m", "\x1b[90m" + "x\x1b[31my\x1b[0m" * 20, "\x1b[10m" + "\x1b[1mA" * 40 + "\x1b[m", "\x1b[95mz" + "\x1b[2K" * 30,
     "tab\there", "\r\n", "é\x1b[1mü", "Ｅ\x1b[31mＥ", "[1m", "a[31mb", "\x1b[31mx[1my\x1b[39m", "\x1b[4;3;1mhi", "\x1b[999m", "\x1b[21m", "\x1b[22m",
 ]
 
@@ -153,8 +155,29 @@ def shard(args):
     return acc.export()
 
 
+TOKENS2 = ("38", "48", "5", "2", "1", "9", ";", "m", "\x1b[", "a")
+
+
+def shard_tokens(args):
+    """Second alphabet: token strings around the extended-colour forms (38;5;n / 48;2;r;g;b), truncated in every way."""
+    tier, seed, first = args
+    acc = Acc(seed=seed)
+    maxn = 6 if tier == "thorough" else 5
+    for n in range(0, maxn):
+        for tail in itertools.product(TOKENS2, repeat=n):
+            s = "\x1b[" + TOKENS2[first] + "".join(tail)
+            acc.case(True, key=("t2", s), sample=lambda: {"s": s})
+            check(acc, s, {"s": s})
+            s2 = "x" + s + "y\nz"
+            acc.case(True, key=("t2", s2))
+            check(acc, s2, {"s": s2})
+    return acc.export()
+
+
 def run(ctx):
     rep = Report()
+    for d in ctx.pmap(shard_tokens, [(ctx.tier, ctx.seed, i) for i in range(len(TOKENS2))]):
+        rep.merge(d, "extended_colour_tokens")
     acc = Acc(seed=ctx.seed)
     for s in [""] + list(SIGMA):  # lengths 0 and 1 (shards below start with 2-character prefixes)
         acc.case(False, key=s)
